@@ -500,3 +500,10 @@ mod test {
         assert!(Token::decode(&prk, &invalid_token).is_none());
     }
 }
+
+#[cfg(feature = "__verif-hooks")]
+#[allow(missing_docs, unreachable_pub, dead_code, unused_imports, unused_qualifications)]
+pub mod verif {
+    use super::*;
+    include!(concat!(env!("QUINN_VERIF_HOOKS"), "/proto/token.rs"));
+}
